@@ -23,13 +23,18 @@ func c01Apply(w *vx.W, s *c01State, op c01Op) bool {
 	case c01KPeer, c01KLimit:
 		c01SizeChange(s, d)
 		return c01TableCheck(w, s, "encoder", &s.enc.dynTab, d.label)
-	case c01KField:
+	case c01KField, c01KBlock:
 		out, ok := c01WriteField(w, s, d.f)
 		if !ok {
 			return false
 		}
 		s.block = append(s.block, out...)
-		return c01TableCheck(w, s, "encoder", &s.enc.dynTab, d.label)
+		if !c01TableCheck(w, s, "encoder", &s.enc.dynTab, d.label) {
+			return false
+		}
+		if d.kind == c01KField {
+			return true
+		}
 	}
 	// End
 	after := fmt.Sprintf("block %s (wire %x)", c01FieldsString(s.pend), s.block)
@@ -177,6 +182,14 @@ func TestVerif_C01(t *testing.T) {
 		// thorough only: a smaller alphabet (one op per table/size situation) taken two steps deeper
 		coreOps := c01Ops("F(k=v)", "F(k=w)", "F(=)", "F(cookie=v)", "F(big=z*100)", "S(k=v)", "End",
 			"Peer(0)", "Peer(33)", "Peer(70)", "Peer(4096)", "Limit(70)", "Limit(4096)")
+		// whole one-field blocks: no open-block component in the state, so the search goes much deeper
+		blockOps := c01Ops("B(k=v)", "B(k=w)", "B(=)", "B(cookie=v)", "B(big=z*100)", "B(S:k=v)",
+			"Peer(0)", "Peer(33)", "Peer(70)", "Peer(4096)", "Limit(0)", "Limit(70)", "Limit(4096)")
+		if c.Quick() {
+			blockOps = c01Ops("B(k=v)", "B(k=w)", "B(=)", "B(big=z*100)", "B(S:k=v)",
+				"Peer(0)", "Peer(33)", "Peer(70)", "Peer(4096)", "Limit(70)", "Limit(4096)")
+		}
+		dBlocks := vx.Pick(c, 7, 9)
 		ops := vx.Pick(c, quickOps, thoroughOps)
 		seeds := [][]c01Op{
 			c01Ops("F(k=v)", "End"),
@@ -193,8 +206,9 @@ func TestVerif_C01(t *testing.T) {
 		if c.Quick() {
 			seeds = seeds[:2]
 		}
-		d0, d1, dCore := vx.Pick(c, 4, 5), 4, 6
+		d0, d1, dCore := vx.Pick(c, 3, 5), 4, 6
 		c.Rule(fmt.Sprintf("breadth-first search over every sequence of operations {%s} on one real Encoder + one real Decoder (NewDecoder(4096)) + an RFC 7541 reference decoder: part seq-seeded = depth %d from seed states whose tables hold 1, 2(, 3 in the thorough tier) small entries (seeds %v), part seq = depth %d from the initial state; states deduplicated on (encoder table/maxSize/minSize/tableSizeUpdate/maxSizeLimit, decoder table/maxSize/allowedMax, reference table, open block fields+bytes, size-change model). F/S write a (sensitive) field into the open block; End feeds the block to Decoder.Write in one piece + Close and compares emitted fields, errors, all three tables and the table index maps; Peer(v)=dec.SetAllowedMaxDynamicTableSize(v)+enc.SetMaxDynamicTableSize(v), Limit(w)=enc.SetMaxDynamicTableSizeLimit(w), both only between blocks. non-trivial = an applied transition whose comparisons were made (a branch is pruned after a divergence); distinct = distinct (representation kinds, size updates, block bytes) of accepted blocks", lab(ops), d1, seeds, d0))
+		c.Rule(fmt.Sprintf("part seq-blocks: the same search to depth %d from the initial state over {%s}, where B(f) is a complete one-field header block (write f, End)", dBlocks, lab(blockOps)))
 		if !c.Quick() {
 			c.Rule(fmt.Sprintf("thorough only, part seq-core: the same search to depth %d from the first two seeds over the smaller alphabet {%s}", dCore, lab(coreOps)))
 		}
@@ -204,15 +218,16 @@ func TestVerif_C01(t *testing.T) {
 		c.Assume("The Huffman code table data (huffmanCodes/huffmanCodeLen) is shared with the reference decoder; C04 checks it.")
 
 		spec := vx.SeqSpec[*c01State, c01Op]{
-			Part:    "seq-seeded",
+			Part:    "seq-blocks",
 			New:     func() *c01State { return c01New("C01", false) },
-			Ops:     ops,
+			Ops:     blockOps,
 			Enabled: c01Enabled,
 			Apply:   c01Apply,
 			Canon:   c01Canon,
-			Depth:   d1,
-			Seeds:   seeds,
+			Depth:   dBlocks,
 		}
+		vx.Seq(c, spec)
+		spec.Part, spec.Ops, spec.Seeds, spec.Depth = "seq-seeded", ops, seeds, d1
 		vx.Seq(c, spec)
 		if !c.Quick() {
 			spec.Part, spec.Ops, spec.Seeds, spec.Depth = "seq-core", coreOps, seeds[:2], dCore
